@@ -49,6 +49,12 @@ theorem reads_le_design (c : Cfg) (s : Nat → Ev) (h : 1 ≤ c.lim.maxPending) 
 theorem elapsed_le (c : Cfg) (s : Nat → Ev) : (run c s).elapsed ≤ elapsedBound c := by
   simpa [run, Res.elapsed, elapsedBound] using (attempts_bounds c s 0 0 (.missing false)).time
 
+/-- one request always terminates (`run` is a total function on infinite scripts) within explicit bounds on
+    transmissions, polls and virtual time that depend on the configuration only, not on what the ECU sends -/
+theorem run_total (c : Cfg) : ∃ w r t, ∀ s : Nat → Ev,
+    (run c s).writes ≤ w ∧ (run c s).reads ≤ r ∧ (run c s).elapsed ≤ t :=
+  ⟨c.maxRetry + 1, readsBound c, elapsedBound c, fun s => ⟨writes_le c s, reads_le c s, elapsed_le c s⟩⟩
+
 /-- concretely for the code's limits, timeout ≤ 20 s and latency ≤ 0.5 s: at most 4921 reads per attempt -/
 theorem reads_le_std (maxRetry timeout lat : Nat) (s : Nat → Ev) (ht : timeout ≤ 20000) :
     (run ⟨maxRetry, timeout, lat, Limits.std⟩ s).reads ≤ (maxRetry + 1) * 4921 := by
@@ -104,10 +110,24 @@ theorem illegal_ends (c : Cfg) (s : Nat → Ev) (j : Nat) (hj : j < (run c s).re
   have := (attempts_first c s 0 0 (.missing false) j (Nat.zero_le _) (by simpa [run, Res.reads] using hj)).2 hf
   simpa [run] using this
 
-/-- the returned reply is the first final reply of the script: nothing final was read before it -/
-theorem reply_is_first (c : Cfg) (s : Nat → Ev) (k : Nat) (h : (run c s).out = .reply k)
-    (hk : k < (run c s).reads) : ∀ j, j < k → (s j).final = false := by
+/-- the reply a request returns is the one produced by its last read: nothing is read after it -/
+theorem reply_is_last (c : Cfg) (s : Nat → Ev) (k : Nat) (h : (run c s).out = .reply k) :
+    (run c s).reads = k + 1 := by
+  have := attempts_reply_last c s 0 0 (.missing false) (by simp) k (.inl (by simpa [run] using h))
+  simp [run, Res.reads]; omega
+
+/-- … it is a final reply or a busyRepeatRequest … -/
+theorem reply_event (c : Cfg) (s : Nat → Ev) (k : Nat) (h : (run c s).out = .reply k) :
+    (s k).final = true ∨ s k = .busy := by
+  have hs := run_sound c s
+  rw [h] at hs
+  exact implied_reply_event hs
+
+/-- … and it is the first final reply of the script: nothing final was read before it -/
+theorem reply_is_first (c : Cfg) (s : Nat → Ev) (k : Nat) (h : (run c s).out = .reply k) :
+    ∀ j, j < k → (s j).final = false := by
   intro j hj
+  have hk := reply_is_last c s k h
   cases hfin : (s j).final with
   | false => rfl
   | true =>
